@@ -754,8 +754,59 @@ def gen_tail(ch, tname, v):
     return {'bits': ch.bits(nb), 'nrefs': ch.choice([0, rr, ch.int(0, rr)])}
 
 
-def mk_case(ch, tname, t, budget):
+def _ctor_nodes(v, out):
+    if isinstance(v, dict):
+        if '_' in v:
+            out.setdefault(v['_'], []).append(v)
+        for x in v.values():
+            _ctor_nodes(x, out)
+    elif isinstance(v, list):
+        for x in v:
+            _ctor_nodes(x, out)
+
+
+def _scalar(x):
+    return x is None or isinstance(x, (int, str, bool))
+
+
+def twin(tname, v, ch, only=None, lead=None):
+    """Designed coincidence: two sub-values built by the same constructor somewhere inside `v` (two transactions, two envelopes,
+    two currency collections ...) are made to AGREE in their leading scalar fields - the first `lead` of them, or a drawn number up
+    to all - while the rest stays different. Independent generation never produces such pairs; a parser that identifies,
+    memoises or merges sub-values by some of their fields does the wrong thing exactly there. Returns the edited deep copy, or
+    None when there is no such pair / the edited value does not satisfy the schema."""
+    import copy
+    w = copy.deepcopy(v)
+    groups = {}
+    _ctor_nodes(w, groups)
+    cands = sorted(k for k, g in groups.items() if len(g) >= 2 and (only is None or k == only))
+    done = 0
+    for name in cands:
+        g = groups[name]
+        if only is None and not ch.bool():
+            continue
+        a = g[0]
+        for b in g[1:]:
+            keys = [k for k in a if k != '_' and k in b and _scalar(a[k]) and _scalar(b[k])]
+            if not keys:
+                continue
+            j = min(lead, len(keys)) if lead else ch.int(1, len(keys))
+            for k in keys[:j]:
+                b[k] = a[k]
+            done += 1
+    if not done:
+        return None
+    try:
+        R.encode(getattr(X, tname), w)
+    except R.ModelError:
+        return None
+    return w
+
+
+def mk_case(ch, tname, t, budget, twins=False):
     v = gen_fit(t, ch, budget)
+    if twins:
+        v = twin(tname, v, ch) or v
     return {'type': tname, 'v': v, 'tail': gen_tail(ch, tname, v)}
 
 
@@ -773,7 +824,7 @@ WEIGHTED = (['Transaction'] * 8 + ['TransactionDescr'] * 6 + ['InMsg'] * 7 + ['O
 def st_case(draw):
     ch = R.HypChooser(draw)
     tname = ch.choice(WEIGHTED)
-    return mk_case(ch, tname, getattr(S, tname), ch.choice([1, 2, 2, 3]))
+    return mk_case(ch, tname, getattr(S, tname), ch.choice([1, 2, 2, 3]), twins=ch.choice([False, False, True]))
 
 
 def strat(tier):
@@ -884,6 +935,30 @@ def enum_cases(tier):
                 yield mk_case(ch, 'OutMsg', d, 3)
             except R.ModelError:
                 pass
+    # designed coincidences: the two transactions of an immediately re-imported message (and every other pair of sub-values built
+    # by one constructor) agree in their first 1, 2, 3 ... scalar fields / in all of them, and differ in the rest
+    for inm in S.InMsg.alts:
+        for lead in (1, 2, 3, 5, None):
+            ch = R.HashChooser(f'c16tx-enum/out-imm-twins/{inm.name}/{lead}')
+            d = derive(S.OutMsg.by_name['msg_export_imm'], {}, {'reimport': R.Ref(inm)})
+            try:
+                c = mk_case(ch, 'OutMsg', d, 3)
+            except R.ModelError:
+                continue
+            for only in ('transaction', None):
+                w = twin('OutMsg', c['v'], R.HashChooser(f'twin/{inm.name}/{lead}/{only}'), only=only, lead=lead or 99)
+                if w is not None:
+                    yield {'type': 'OutMsg', 'v': w, 'tail': gen_tail(ch, 'OutMsg', w)}
+    for tname in ('Transaction', 'InMsg', 'OutMsg', 'AccountBlock', 'ShardAccount', 'Account', 'MsgEnvelope'):
+        for i in range(6 if tier == 'quick' else 60):
+            ch = R.HashChooser(f'c16tx-enum/twins/{tname}/{i}')
+            try:
+                c = mk_case(ch, tname, getattr(S, tname), 3)
+            except R.ModelError:
+                continue
+            w = twin(tname, c['v'], ch, lead=(1, 2, 99)[i % 3])
+            if w is not None:
+                yield {'type': tname, 'v': w, 'tail': gen_tail(ch, tname, w)}
     # extremes and hash-chosen values of every type
     for tname in TYPES:
         t = getattr(S, tname)
